@@ -150,7 +150,8 @@ type plan struct {
 	name      string
 	recovery  bool
 	nclients  int
-	up        [][]int // per client-side emitter thread: shapes to emit (client 0)
+	up        [][]int // per client-side emitter thread: shapes to emit (client 0 unless upClient says otherwise)
+	upClient  []int   // per client-side emitter thread: which client emits (default 0)
 	down      [][]int // per server-side emitter thread: shapes to emit to client 0
 	broadcast []int   // shapes emitted with nsp.Emit to all clients
 }
@@ -200,12 +201,16 @@ func scenario(p plan, bound int) *vx.Scenario {
 				wantSrv = append(wantSrv, expectShape(sh, base+i))
 			}
 			tag += len(shapes)
+			from := socks[0]
+			if t < len(p.upClient) {
+				from = socks[p.upClient[t]]
+			}
 			vsched.GoQuiet(fmt.Sprintf("client-emitter%d", t), func() {
 				for i, sh := range shapes {
-					emitShape(socks[0], sh, base+i)
+					emitShape(from, sh, base+i)
 				}
 				// an event nobody listens to, whose name merely starts with a registered one
-				socks[0].Emit("evx-unhandled")
+				from.Emit("evx-unhandled")
 			})
 		}
 		for t, shapes := range p.down {
@@ -344,9 +349,14 @@ func scenarios(tier string) []*vx.Scenario {
 			scenario(plan{name: r + "/2x2-each-way", recovery: rec, nclients: 1, up: [][]int{{1, 3}, {2, 5}}, down: [][]int{{4, 6}, {3, 2}}}, b),
 			scenario(plan{name: r + "/binary-contention", recovery: rec, nclients: 1, up: [][]int{{5, 3}, {4, 5}}, down: [][]int{{5}, {3}}}, b),
 			scenario(plan{name: r + "/2-clients-broadcast", recovery: rec, nclients: 2, up: [][]int{{1}}, down: [][]int{{2}}, broadcast: []int{3, 1}}, b),
+			// two connections of one server emitting at once, attachments on one or both: the frames of the
+			// two connections reach the server interleaved (header A, frame of B, attachment A)
+			scenario(plan{name: r + "/2-clients-both-emit/binary-then-text", recovery: rec, nclients: 2, up: [][]int{{3}, {1}}, upClient: []int{0, 1}}, b),
+			scenario(plan{name: r + "/2-clients-both-emit/text-then-binary", recovery: rec, nclients: 2, up: [][]int{{2}, {5}}, upClient: []int{0, 1}}, b),
+			scenario(plan{name: r + "/2-clients-both-emit/binary-both", recovery: rec, nclients: 2, up: [][]int{{4}, {5}}, upClient: []int{0, 1}}, b),
 		)
 	}
-	return s
+	return append(s, interleavedScenarios(tier)...)
 }
 
 // companion results (real loopback matrix), produced by harness/c01r5
@@ -405,6 +415,7 @@ func main() {
 		Property: "C01",
 		Level:    "model_checking",
 		Rule: "schedules: real Manager(s) <-> Server over the in-process polling link, 2 emitter threads per direction (+ a namespace broadcaster with 2 clients), 6 argument shapes (no args, int, unicode string, struct with Binary, map with Binary leaf, two Binary args incl. an empty one) on event names of which one is a prefix of the other, recovery off and on, explored to the deviation bound after a default-schedule set-up; oracle: multiset of rendered (event, arguments) seen by the handlers of each side equals the emitted one. " +
+			"Interleaved connections (rig R1, protocol-level clients): 2 (thorough: 3) connections of one server each send one packet frame by frame (text event, event with 1 or 2 attachments, CONNECT of another namespace); every merge of the frame sequences is played; each socket's handlers must see exactly its own event, intact, and no connection may be closed. " +
 			"Matrix (real loopback I/O, plain build): argument shape x boundary size x transport {polling, websocket, polling->websocket after the upgrade} x direction x recovery x 1/3 clients, one event at a time followed by a barrier event. distinct_nontrivial = deviating schedules + matrix cells",
 		Scenarios: scenarios,
 		Budget: func(tier string) time.Duration {
